@@ -83,3 +83,11 @@ func MergePatch(doc, patch []byte) ([]byte, error)    { return jsonpatch.MergePa
 func MergeMergePatches(p1, p2 []byte) ([]byte, error) { return jsonpatch.MergeMergePatches(p1, p2) }
 func CreateMergePatch(a, b []byte) ([]byte, error)    { return jsonpatch.CreateMergePatch(a, b) }
 func Equal(a, b []byte) bool                          { return jsonpatch.Equal(a, b) }
+
+// ApplyDecoded applies an already decoded patch.
+func ApplyDecoded(p Patch, doc []byte, o Opts, indent string) ([]byte, error) {
+	if indent == "" {
+		return p.ApplyWithOptions(doc, o.Native())
+	}
+	return p.ApplyIndentWithOptions(doc, indent, o.Native())
+}
